@@ -7,6 +7,6 @@ CONSTANTS
   PrecisionSeqs <- MCPrecs
 INVARIANTS
   RowMatchesRequest
-  NothingWrittenOnError
+  NoRowOnError
   Emit
 CHECK_DEADLOCK FALSE
